@@ -6,6 +6,7 @@
 import PyElf.Gen.Structs
 import PyElf.Gen.Tables
 import PyElf.Spec.DwarfStructs
+import PyElf.Spec.DwarfLookup
 import PyElf.Model.Env
 namespace PyElf.Props.TieC13
 open PyElf
@@ -23,5 +24,12 @@ theorem dw_ut_decode :
     [1, 2, 3, 4, 5, 6].map (Model.genEnumDecode "ENUM_DW_UT")
       = [some "DW_UT_compile", some "DW_UT_type", some "DW_UT_partial", some "DW_UT_skeleton",
          some "DW_UT_split_compile", some "DW_UT_split_type"] := by decide
+
+/-- the same, in the form the unit-header theorems take it: the regenerated `ENUM_DW_UT` names the
+    six unit types as the standard (Spec `utName`) does -/
+theorem enum_ut : ∀ k : Nat, 1 ≤ k → k ≤ 6 → Model.genEnumDecode "ENUM_DW_UT" k = Spec.Lookup.utName k := by
+  intro k h1 h6
+  have : k = 1 ∨ k = 2 ∨ k = 3 ∨ k = 4 ∨ k = 5 ∨ k = 6 := by omega
+  rcases this with rfl | rfl | rfl | rfl | rfl | rfl <;> decide +kernel
 
 end PyElf.Props.TieC13
